@@ -125,6 +125,8 @@ func (m *Machine) callBuiltin(caller *frame, fn *ssa.Builtin, args []value) valu
 		return Iface{}
 	case "print", "println":
 		return nil
+	case "ssa:deferstack":
+		return &deferStack{fr: caller}
 	case "ssa:wrapnilchk":
 		p := args[0].(Ptr)
 		if p.isNil() {
@@ -281,3 +283,6 @@ func (m *Machine) appendBuiltin(s Slice, tv value, fn *ssa.Builtin) value {
 	}
 	return Slice{obj: m.newObj("append"), a: na}
 }
+
+// deferStack designates the defer stack of a frame (ssa:deferstack).
+type deferStack struct{ fr *frame }
